@@ -557,6 +557,9 @@ fn observe<'a, I: InK<'a>, C: Cfg<'a, I>>(
                 *c = unrender(*c);
             }
         }
+        // the order of the entries of an expected list is not specified: canonicalise
+        e.exp.sort_by_key(|x| format!("{x:?}"));
+        e.exp.dedup();
     }
     (obs, bad.0 + bad_e, bad.1)
 }
